@@ -3,7 +3,8 @@
 name=$1; patch=$2; shift 2
 wt=/tmp/wt_mut_$name; out=/tmp/mutout_$name
 git -C /repo worktree add -q --detach $wt HEAD || exit 9
-( cd $wt && (git apply --3way "$patch" 2>/dev/null || git apply "$patch") ) || { echo "$name: PATCH DOES NOT APPLY"; git -C /repo worktree remove --force $wt; exit 8; }
+( cd $wt && git apply --3way "$patch" >/dev/null 2>&1; [ -z "$(cd $wt && git diff --name-only --diff-filter=U)" ] && [ -n "$(cd $wt && git status --porcelain --untracked-files=no)" ] ) || { echo "$name: PATCH DOES NOT APPLY (conflicts with the fixes at HEAD)"; git -C /repo worktree remove --force $wt; exit 8; }
+( cd $wt && git reset -q )
 mkdir -p $out
 for p in "$@"; do
   o=$(cd /verif && MATID_REPO=$wt VERIF_OUT=$out VERIF_SEED=${VERIF_SEED:-0} ./check $p --tier ${TIER:-quick} 2>&1); rc=$?
